@@ -21,6 +21,9 @@ type Update struct {
 	Stop     string
 	Arr, Dep *int64
 	Track    *string
+	// SR, when set, is the update's schedule relationship (0 SCHEDULED, 1 SKIPPED, 2 NO_DATA); the journal records stop,
+	// arrival, departure and track whatever it says.
+	SR *int32
 }
 
 // TripState is one trip as reported by one feed.
@@ -114,6 +117,10 @@ func (f *Feed) Message() *gtfsrt.FeedMessage {
 			}
 			if u.Dep != nil {
 				su.Departure = &gtfsrt.TripUpdate_StopTimeEvent{Time: rgen.I64(*u.Dep)}
+			}
+			if u.SR != nil {
+				x := gtfsrt.TripUpdate_StopTimeUpdate_ScheduleRelationship(*u.SR)
+				su.ScheduleRelationship = &x
 			}
 			if u.Track != nil {
 				proto.SetExtension(su, gtfsrt.E_NyctStopTimeUpdate, &gtfsrt.NyctStopTimeUpdate{ActualTrack: rgen.S(*u.Track)})
@@ -350,6 +357,13 @@ func mkUpdate(r *core.Rand, stop string, t uint64) Update {
 	if r.Chance(1, 2) {
 		s := core.Pick(r, []string{"1", "2", "A3", ""})
 		u.Track = &s
+	}
+	if r.Chance(1, 4) {
+		x := int32(r.Intn(3))
+		u.SR = &x
+		if x == 2 && r.Bool() {
+			u.Arr, u.Dep = nil, nil // NO_DATA usually comes without times
+		}
 	}
 	return u
 }
